@@ -10,10 +10,12 @@ import (
 	"strings"
 	"time"
 
+	"github.com/cosmos/cosmos-sdk/codec"
 	sdk "github.com/cosmos/cosmos-sdk/types"
 	gogoproto "github.com/gogo/protobuf/proto"
 	descpb "github.com/gogo/protobuf/protoc-gen-gogo/descriptor"
 
+	"github.com/jackalLabs/canine-chain/v4/app"
 	"github.com/jackalLabs/canine-chain/v4/wasmbinding"
 	notiftypes "github.com/jackalLabs/canine-chain/v4/x/notifications/types"
 	oracletypes "github.com/jackalLabs/canine-chain/v4/x/oracle/types"
@@ -342,6 +344,12 @@ func (C11Iso) Config() world.Config {
 	return world.Config{
 		Accounts: []string{"O", "N", "X", "C1"},
 		Storage:  func(p *storagetypes.Params) { p.CollateralPrice = 1000; p.ProofWindow, p.CheckWindow = 50, 100 },
+		GenesisMod: func(cdc codec.JSONCodec, gs app.GenesisState) { // a name of O that expired long ago (records stay in the store)
+			var g rnstypes.GenesisState
+			cdc.MustUnmarshalJSON(gs[rnstypes.ModuleName], &g)
+			g.NamesList = append(g.NamesList, rnstypes.Names{Name: "lapsed", Tld: "jkl", Expires: 1, Value: world.MakeAcct("O").Bech, Data: "{}", Subdomains: []*rnstypes.Names{}})
+			gs[rnstypes.ModuleName] = cdc.MustMarshalJSON(&g)
+		},
 	}
 }
 func (C11Iso) Stores() []string {
@@ -368,7 +376,7 @@ func (C11Iso) Init(env world.Env) mc.Model {
 var c11FeedVariants = []string{"feedO ", " feedO", "FEEDO", "feedO/", "feedO\n"}
 
 var c11IsoKinds = []string{"SetIP", "SetKeybase", "SetSpace", "AddClaimer", "RemoveClaimer", "Shutdown", "InitProvider", "UpdateFeedO", "CreateFeedOwn", "UpdateFeedOwn",
-	"DeleteNotif", "BlockSenders", "MakePrimary", "DeleteFile", "RegisterOwnName"}
+	"DeleteNotif", "BlockSenders", "MakePrimary", "MakePrimaryLapsed", "MakePrimaryCaps", "DeleteFile", "RegisterOwnName"}
 
 func (C11Iso) Events(env world.Env, mm mc.Model) []string {
 	var evs []string
@@ -457,6 +465,14 @@ func (C11Iso) Apply(env world.Env, mm mc.Model, ev string) mc.Step {
 		msg = notiftypes.NewMsgBlockSenders(who, w.A("X").Bech)
 	case "MakePrimary":
 		mp := rnstypes.NewMsgMakePrimary("owner.jkl")
+		mp.Creator = who
+		msg = mp
+	case "MakePrimaryLapsed":
+		mp := rnstypes.NewMsgMakePrimary("lapsed.jkl")
+		mp.Creator = who
+		msg = mp
+	case "MakePrimaryCaps":
+		mp := rnstypes.NewMsgMakePrimary("Lapsed.JKL")
 		mp.Creator = who
 		msg = mp
 	case "DeleteFile":
